@@ -11,3 +11,4 @@ import CompmechVerif.Props.C09
 #print axioms Compmech.NR.C09.finished_last_factor_window
 #print axioms Compmech.NR.C09.final_not_one_counterexample
 #print axioms Compmech.NR.C09.linear_problem_finishes_partial
+#print axioms Compmech.NR.C09.linear_problem_reaches_full_load_window_partial
